@@ -96,7 +96,7 @@ m = {
  ],
  "checks": [],
  "not_applicable": [{"property_id": p, "reason": "check not built yet (work in progress; model checking is applicable)"} for p in sorted(not_built)],
- "notes": "All checks: cwd=/verif, ./run.sh <id> <tier> rebuilds the harness against /repo's working tree with -tags verif and runs it in a worker under a supervising process (a worker that dies after journalling a violation is reported as exit 1, otherwise exit 2). Known findings: /verif/known_findings.txt. 200 seeded changes with results: /verif/seeded/.",
+ "notes": "All checks: cwd=/verif, ./run.sh <id> <tier> rebuilds the harness against /repo's working tree with -tags verif and runs it in a worker under a supervising process (a worker that dies after journalling a violation is reported as exit 1, otherwise exit 2). Known findings: /verif/known_findings.txt. 240 seeded changes with results: /verif/seeded/.",
 }
 # what the five seeding rounds added on top of the original bounded families (DESIGN.md section 7)
 later = {
